@@ -50,6 +50,11 @@ def errOpsOf (kind : String) (custom : List Op) : ErrCode → List Op :=
 def encOpsOf (kind : String) (custom : List Op) : ReqFail → List Op :=
   match kind with
   | "vee" => fun f => [.writeHeader f.convStatus, .write ['V']]   -- ValidationErrorEncoder{custom}: status from ConvertErrors
+  -- DefaultErrorEncoder (what Load installs): text/plain, 500 (no request-validation error carries a status),
+  -- body err.Error() — the wording is the library's: '*' stands for "some non-empty text"
+  | "default" => fun _ => [.setHdr "Content-Type" "text/plain; charset=utf-8", .writeHeader 500, .write ['*']]
+  -- ValidationErrorEncoder{DefaultErrorEncoder}: a converted error carries its status (StatusCoder)
+  | "veedefault" => fun f => [.setHdr "Content-Type" "text/plain; charset=utf-8", .writeHeader f.convStatus, .write ['*']]
   | "silent" => fun _ => []
   | _ => fun _ => custom
 
@@ -82,7 +87,7 @@ def lookupEntry (entries : List (String × String)) (st : Nat) : Option (String 
 
 def respOKOf (entries : List (String × String)) (includeStatus excludeBody : Bool) (st : Nat) (h : Hdr) (b : Bytes) : Bool :=
   if st == 304 || st == 308 || st == 307 || st == 301 then true else
-  if entries.isEmpty then true else
+  if entries.isEmpty && !includeStatus then true else   -- `responses.Len() == 0 && !options.IncludeResponseStatus`
   match lookupEntry entries st with
   | none => !includeStatus
   | some (_, kind) =>
@@ -118,7 +123,14 @@ def parseRq (j : Json) (useOpts : Bool) : Rq :=
             opSecurity := if isNull rq "opSecurity" then none else some (parseReqs (getArr rq "opSecurity")),
             docSecurity := parseReqs (getArr rq "docSecurity"),
             hasBody := getBool rq "hasBody", bodyOK := getStr rq "bodyFail" == "" },
-    declared := strs (getArr rq "declared"), accepted := strs (getArr rq "accepted") }
+    declared := strs (getArr rq "declared"),
+    -- "noauth": no AuthenticationFunc configured. Validator (useOpts): validateSecurityRequirement returns
+    -- ErrAuthenticationServiceMissing for every requirement; ValidationHandler: Load installs the no-op function,
+    -- which accepts every scheme it is asked about (undeclared schemes fail before it is asked)
+    accepted := if getBool rq "noauth" then
+                  (if useOpts then [] else
+                    ((parseReqs (getArr rq "opSecurity") ++ parseReqs (getArr rq "docSecurity")).foldl (· ++ ·) []).eraseDups)
+                else strs (getArr rq "accepted") }
 
 def Rq.verdict (r : Rq) : KinModel.Request.Res :=
   KinModel.Request.validateRequest r.o r.op (fun s => r.declared.contains s) (fun s => r.accepted.contains s)
@@ -157,6 +169,7 @@ def rqBranches (j : Json) (r : Rq) : List String :=
   (if r.o.excludeBody && r.op.hasBody then ["rq.opt.exb"] else []) ++
   (if r.o.excludeQuery && (r.op.pathParams ++ r.op.opParams).any (fun p => p.loc == .query) then ["rq.opt.exq"] else []) ++
   (if r.o.multiError then ["rq.opt.multi"] else []) ++
+  (if getBool (getD j "rq" Json.null) "noauth" then ["rq.noauth"] else []) ++
   (if getBool j "decoy" then ["doc.decoy"] else [])
 
 def insertKV (p : String × String) : List (String × String) → List (String × String)
@@ -259,7 +272,7 @@ def renderMw (j : Json) (p : MwIn) (o : Outcome) : Json :=
   let env := p.env
   let s := spec cfg env ops
   let applicable := validCodesB ops
-  let excl : List String := if informational env.server ops then ["Informational1xx"] else []
+  let excl : List String := []
   let rawOps := getArr j "ops"
   let vopts := getArr j "vopts"
   let wrapperTy := if strict then "strictResponseWrapper" else "warnResponseWrapper"
@@ -283,7 +296,7 @@ def renderMw (j : Json) (p : MwIn) (o : Outcome) : Json :=
     (if getStr j "transport" == "server" then ["tr.server"] else []) ++
     (if getBool j "head" then ["req.head"] else []) ++
     (["rcfl", "ws", "copy", "probe"].filter (hasOpKind rawOps)).map ("ops.iface." ++ ·) ++
-    (if !excl.isEmpty && env.routeFound && env.reqOK then ["mw.info_" ++ (if strict then "strict" else "warn")] else []) ++
+    (if informational env.server ops && env.routeFound && env.reqOK then ["mw.info_" ++ (if strict then "strict" else "warn")] else []) ++
     (vopts.map (fun o => "opt." ++ getStr o "o" ++ (if getStr o "o" == "onerr" then "." ++ getStr o "kind" else ""))).eraseDups ++
     (if !vopts.isEmpty then
        (["strict", "onerr", "onlog", "valopts"].filter (fun k => !hasKind vopts k)).map ("opt.default." ++ ·) ++
